@@ -5,7 +5,10 @@ import (
 	"encoding/json"
 	"errors"
 	"fmt"
+	"os"
+	"os/exec"
 	"reflect"
+	"runtime"
 	"strconv"
 	"strings"
 	"sync"
@@ -437,6 +440,220 @@ func execOp(s *Sexp) string {
 				return msg
 			}
 			return "ok"
+		})
+	case "gcptrs":
+		// (gcptrs KIND N): a slice of N pointers is decoded; the pointers are only reachable through the
+		// decoded slice; after garbage collections and fresh allocations every pointee is still there
+		n, err := strconv.Atoi(arg(2))
+		if err != nil || n < 1 || n > 1000000 {
+			return "bad-op"
+		}
+		return guard(func() string {
+			type el struct {
+				A int64  `plenc:"1"`
+				S string `plenc:"2"`
+			}
+			type holder struct {
+				I []*int64  `plenc:"1"`
+				B []*bool   `plenc:"2"`
+				S []*string `plenc:"3"`
+				E []*el     `plenc:"4"`
+			}
+			p := &plenc.Plenc{}
+			p.RegisterDefaultCodecs()
+			in := &holder{}
+			for i := 0; i < n; i++ {
+				switch arg(1) {
+				case "int64":
+					v := int64(i*7 + 1)
+					in.I = append(in.I, &v)
+				case "bool":
+					v := i%3 == 0
+					in.B = append(in.B, &v)
+				case "str":
+					v := fmt.Sprintf("s%d", i)
+					in.S = append(in.S, &v)
+				default:
+					in.E = append(in.E, &el{A: int64(i + 1), S: "x"})
+				}
+			}
+			data, err := p.Marshal(nil, in)
+			if err != nil {
+				return "err"
+			}
+			in = nil
+			out := &holder{}
+			if err := p.Unmarshal(data, out); err != nil {
+				return "err"
+			}
+			data = nil
+			var filler [][]byte
+			for round := 0; round < 3; round++ {
+				runtime.GC()
+				for k := 0; k < 4000; k++ {
+					b := make([]byte, 8+k%24)
+					for j := range b {
+						b[j] = 0xEE
+					}
+					filler = append(filler, b)
+				}
+			}
+			_ = filler
+			for i := 0; i < n; i++ {
+				ok := true
+				switch arg(1) {
+				case "int64":
+					ok = len(out.I) == n && out.I[i] != nil && *out.I[i] == int64(i*7+1)
+				case "bool":
+					ok = len(out.B) == n && out.B[i] != nil && *out.B[i] == (i%3 == 0)
+				case "str":
+					ok = len(out.S) == n && out.S[i] != nil && *out.S[i] == fmt.Sprintf("s%d", i)
+				default:
+					ok = len(out.E) == n && out.E[i] != nil && out.E[i].A == int64(i+1) && out.E[i].S == "x"
+				}
+				if !ok {
+					return fmt.Sprintf("ok wrong: element %d changed after garbage collection", i)
+				}
+			}
+			return "ok"
+		})
+	case "unwrap":
+		// (unwrap KIND): an envelope is decoded, its payload (bytes of an inner envelope) is decoded into the
+		// SAME variable: the input of the second call is memory the target holds. It must come out unchanged,
+		// and what was decoded must not be a view of it.
+		return guard(func() string {
+			type Blob []byte
+			type envB struct {
+				Kind    int    `plenc:"1"`
+				Payload []byte `plenc:"2"`
+			}
+			type envN struct {
+				Kind    int  `plenc:"1"`
+				Payload Blob `plenc:"2"`
+			}
+			type envM struct {
+				Kind int               `plenc:"1"`
+				M    map[string][]byte `plenc:"2"`
+			}
+			p := &plenc.Plenc{}
+			p.RegisterDefaultCodecs()
+			check := func(raw, snap []byte, got []byte) string {
+				if !bytes.Equal(raw, snap) {
+					return "ok wrong: Unmarshal changed its input: " + hx(snap) + " became " + hx(raw)
+				}
+				if string(got) != "hello world ÿ" {
+					return "ok wrong: decoded payload " + hx(got)
+				}
+				for i := range raw {
+					raw[i] = 0xAA
+				}
+				if string(got) != "hello world ÿ" {
+					return "ok wrong: the decoded payload is a view of the input"
+				}
+				return "ok"
+			}
+			payload := []byte("hello world ÿ")
+			switch arg(1) {
+			case "bytes":
+				inner, _ := p.Marshal(nil, &envB{Kind: 7, Payload: payload})
+				outer, _ := p.Marshal(nil, &envB{Kind: 1, Payload: inner})
+				var env envB
+				if err := p.Unmarshal(outer, &env); err != nil {
+					return "err"
+				}
+				raw := env.Payload
+				snap := append([]byte(nil), raw...)
+				if err := p.Unmarshal(raw, &env); err != nil {
+					return "ok wrong: second decode failed: " + err.Error()
+				}
+				return check(raw, snap, env.Payload)
+			case "blob":
+				inner, _ := p.Marshal(nil, &envN{Kind: 7, Payload: payload})
+				outer, _ := p.Marshal(nil, &envN{Kind: 1, Payload: inner})
+				var env envN
+				if err := p.Unmarshal(outer, &env); err != nil {
+					return "err"
+				}
+				raw := []byte(env.Payload)
+				snap := append([]byte(nil), raw...)
+				if err := p.Unmarshal(raw, &env); err != nil {
+					return "ok wrong: second decode failed: " + err.Error()
+				}
+				return check(raw, snap, env.Payload)
+			case "map":
+				inner, _ := p.Marshal(nil, &envM{Kind: 7, M: map[string][]byte{"k": payload}})
+				outer, _ := p.Marshal(nil, &envM{Kind: 1, M: map[string][]byte{"k": inner}})
+				var env envM
+				if err := p.Unmarshal(outer, &env); err != nil {
+					return "err"
+				}
+				raw := env.M["k"]
+				snap := append([]byte(nil), raw...)
+				if err := p.Unmarshal(raw, &env); err != nil {
+					return "ok wrong: second decode failed: " + err.Error()
+				}
+				return check(raw, snap, env.M["k"])
+			}
+			return "bad-op"
+		})
+	case "jalias":
+		// (jalias): JSON-any values (strings, keys, json.Number) survive the re-use of the input buffer
+		return guard(func() string {
+			p := jsonInstance()
+			in := map[string]interface{}{"key-one": "text", "n": json.Number("12345678901234567890"), "a": []interface{}{json.Number("1.5e300"), "s"}}
+			data, err := p.Marshal(nil, &in)
+			if err != nil {
+				return "err"
+			}
+			var out map[string]interface{}
+			if err := p.Unmarshal(data, &out); err != nil {
+				return "err"
+			}
+			for i := range data {
+				data[i] = 0xAA
+			}
+			if !reflect.DeepEqual(out, in) {
+				return fmt.Sprintf("ok wrong: after the input buffer was overwritten the decoded value is %v", out)
+			}
+			return "ok"
+		})
+	case "regselfhist":
+		// (regselfhist): whether []P / *P is accepted for a self-referential P depends on THIS instance's
+		// registrations, not on what another instance (or this one, earlier) found out
+		return guard(func() string {
+			t := reflect.TypeOf([]PSelf(nil))
+			pt := reflect.TypeOf((*PSelf)(nil))
+			p1 := &plenc.Plenc{}
+			p1.RegisterDefaultCodecs()
+			if _, err := p1.CodecForType(t); err == nil {
+				return "ok wrong: []PSelf accepted without a registration"
+			}
+			p2 := &plenc.Plenc{}
+			p2.RegisterDefaultCodecs()
+			if _, err := p2.CodecForType(pt); err == nil {
+				return "ok wrong: *PSelf accepted without a registration"
+			}
+			p2.RegisterCodec(reflect.TypeOf(PSelf(nil)), plenccodec.IntCodec[int]{})
+			if _, err := p2.CodecForType(t); err != nil {
+				return "ok wrong: []PSelf rejected although PSelf has a registered codec on this instance: " + clip(err.Error(), 100)
+			}
+			if _, err := p2.CodecForType(pt); err != nil {
+				return "ok wrong: *PSelf rejected although PSelf has a registered codec on this instance: " + clip(err.Error(), 100)
+			}
+			if _, err := p1.CodecForType(t); err == nil {
+				return "ok wrong: the registration on another instance made []PSelf acceptable here"
+			}
+			return "ok"
+		})
+	case "pkgreg":
+		// (pkgreg): a registration on the package-level default made BEFORE its first use (as in an init
+		// function) is honoured: a fresh process registers, then marshals
+		return guard(func() string {
+			out, err := exec.Command(os.Args[0], "pkgreg").CombinedOutput()
+			if err != nil {
+				return "ok wrong: " + clip(strings.TrimSpace(string(out)), 200) + " (" + err.Error() + ")"
+			}
+			return strings.TrimSpace(string(out))
 		})
 	case "entriespresent":
 		// (entriespresent xDATA MAX): the room a counted container asks for (verif hook on the real function)
